@@ -43,20 +43,42 @@ def data_bag(rng, node, n_valid=3, n_mut=10, n_pool=22, with_values=True):
         except LookupError:
             continue
         values.append(x)
-        bag.append((f"dump#{i}", (lambda d=d: copy.deepcopy(d)), False))
+        bag.append((f"dump#{i}", (lambda d=d: copy.deepcopy(d)), _stateful(d)))
         if with_values and not _has_huge_iterable(x):
-            bag.append((f"value#{i}", (lambda x=x: _copy(x)), False))
+            bag.append((f"value#{i}", (lambda x=x: _copy(x)), _stateful(x)))
     if values:
         try:
             d0 = node.dump(values[0])
             if hostile.json_like(d0):
                 for label, fac in hostile.mutants(rng, d0, n_mut):
-                    bag.append((label, fac, False))
+                    bag.append((label, fac, _stateful(fac())))
         except LookupError:
             pass
     for label, fac in rng.sample(hostile.POOL, min(n_pool, len(hostile.POOL))):
-        bag.append((label, fac, label in ONE_SHOT))
+        bag.append((label, fac, label in ONE_SHOT or _stateful(fac())))
     return values, bag
+
+
+def _stateful(x, depth=0):
+    """Data that one load changes, so that the next load of the same object sees something else: iterators, file-like objects
+    (iterating a BytesIO moves its position) and defaultdicts (the known C20 finding: a missing required key gets inserted).
+    Such data are given afresh to every mode (thorough-tier false alarms C06 success-disagreement:*:BytesIO / :defaultdict)."""
+    import collections  # noqa: PLC0415
+    import collections.abc as cabc  # noqa: PLC0415
+    import io  # noqa: PLC0415
+
+    if isinstance(x, (cabc.Iterator, io.IOBase, collections.defaultdict)):
+        return True
+    if depth > 6:
+        return False
+    if isinstance(x, (dict, collections.UserDict)):
+        return any(_stateful(k, depth + 1) or _stateful(v, depth + 1) for k, v in x.items())
+    if isinstance(x, (list, tuple, set, frozenset, collections.deque, collections.UserList)):
+        return any(_stateful(v, depth + 1) for v in x)
+    from .eq import model_fields  # noqa: PLC0415
+
+    fields = model_fields(x)
+    return bool(fields) and any(_stateful(v, depth + 1) for v in fields.values())
 
 
 def _has_huge_iterable(x, depth=0):
